@@ -12,7 +12,7 @@ open TH.Lts.Pool
     waiting: blocked ones plus those already woken that have not re-acquired the lock. -/
 theorem waiting_count_exact (s : State) (h : Reachable s) :
     s.waitingCnt = count s isWaiting + count s isWoken := by
-  sorry
+  exact (inv1_reachable h).wc
 
 /-- Every queued task is claimed: in every reachable state — any number of dispatches in any
     burst pattern relative to workers waking, starting, retiring; running tasks never need to end —
@@ -20,21 +20,47 @@ theorem waiting_count_exact (s : State) (h : Reachable s) :
     on their way to the queue. -/
 theorem queued_tasks_are_claimed (s : State) (h : Reachable s) :
     s.pending.length ≤ count s isWoken := by
-  sorry
+  exact (inv1_reachable h).j
 
 /-- Progress without any connection ending: whenever a task is queued, some woken worker can take
     its step, and that step starts a queued task — no `finish` (task end) is needed. -/
 theorem every_queued_task_can_start (s : State) (h : Reachable s) (hp : s.pending ≠ []) :
     ∃ w s', isWoken (phaseOf s w) = true ∧ step s (.look w) = some s' ∧
       s'.pending.length + 1 = s.pending.length ∧ s'.started.length = s.started.length + 1 := by
-  sorry
+  have hj := (inv1_reachable h).j
+  have hpos : 0 < (s.workers.filter isWoken).length := by
+    cases hpe : s.pending with
+    | nil => exact absurd hpe hp
+    | cons k rest => simp [hpe, count] at hj; omega
+  obtain ⟨p, hpm⟩ := List.exists_mem_of_length_pos hpos
+  obtain ⟨hpw, hpk⟩ := List.mem_filter.mp hpm
+  obtain ⟨w, hw, rfl⟩ := List.getElem_of_mem hpw
+  have hph := phaseOf_eq_getElem hw
+  cases hpe : s.pending with
+  | nil => exact absurd hpe hp
+  | cons k rest =>
+    cases hq : s.workers[w] with
+    | woken b =>
+      rw [hq] at hph
+      exact ⟨w, _, by simp [hph, isWoken], step_complete (.wokenTake w k b rest hph hpe), by simp, by simp⟩
+    | _ => simp [hq, isWoken] at hpk
 
 /-- a dispatch never waits: `spawn` is a single atomic block, enabled in every state of a live
     pool with one of its two branches. -/
 theorem dispatch_never_blocks (s : State) (k : Nat) (hd : s.dropped = false) (h : Reachable s) :
     (∃ s', step s (.dispatch k .newThread) = some s') ∨
     (∃ woke s', step s (.dispatch k (.queued woke)) = some s') := by
-  sorry
+  have _ := h  -- reachability is not needed: the two guards are complementary
+  by_cases hc : s.waitingCnt ≤ s.pending.length
+  · exact .inl ⟨_, step_complete (.dispNew k hd hc)⟩
+  · right
+    cases hany : s.workers.any isWaiting with
+    | false => exact ⟨none, _, step_complete (.dispQNone k hd (by omega) hany)⟩
+    | true =>
+      obtain ⟨w, hw⟩ := exists_waiting_of_any s hany
+      cases hph : phaseOf s w with
+      | waiting dl => exact ⟨some w, _, step_complete (.dispQSome k w dl hd (by omega) hph)⟩
+      | _ => simp [hph, isWaiting] at hw
 
 def startingTasks (s : State) : List Nat :=
   s.workers.filterMap (fun p => match p with | .starting (some k) => some k | _ => none)
@@ -43,12 +69,15 @@ def startingTasks (s : State) : List Nat :=
     queued, or carried by a freshly created thread. -/
 theorem task_conservation (s : State) (h : Reachable s) :
     (s.started.map (·.1) ++ s.pending ++ startingTasks s).Perm s.dispatched := by
-  sorry
+  exact tasks_perm h
 
 /-- each connection is served by exactly one worker, once. -/
 theorem task_started_at_most_once (s : State) (h : Reachable s) (hn : s.dispatched.Nodup) :
     (s.started.map (·.1)).Nodup := by
-  sorry
+  have hperm := task_conservation s h
+  have hnd := hperm.nodup_iff.mpr hn
+  rw [List.append_assoc] at hnd
+  exact (List.nodup_append.mp hnd).1
 
 /-- the scenario of the repaired defect: four idle workers, five dispatches before any woken
     worker re-acquires the lock — the fifth gets its own thread. -/
